@@ -185,6 +185,31 @@ CHECKS = {
          "readers honour the io.Reader contract (n >= 1 unless EOF; no transport errors); streams are valid encodings built from Wire.tla (bound by C06)",
          "TLA+ spec Stream.tla (TLC, all delivery schedules); TLC-enumerated schedules replayed into pkg/encoding, pkg/objects decoders; TLC trace validation (TraceStream.tla)",
          "DESIGN.md 5/C18"),
+ "C09": ("sync", "model_checking",
+         "Sync.tla states what a fetch / push must leave behind (HistoryComplete: every created or moved ref points at a commit whose whole "
+         "ancestry is present, with the tables of the commits within depth; Monotone; tags followed only onto full commits); SyncGen "
+         "enumerates history pairs equal / ahead / behind / diverged / unrelated with merges x refspec sets x depth x force and TLC exports the "
+         "expected refs, commits and tables; every scenario runs through the real `wrgl fetch` / `wrgl push` / `wrgl pull` against the "
+         "reference server assembled from the repository's own sender / receiver / negotiation code, stores compared object by object, the "
+         "operation immediately repeated (must transfer and change nothing); library-level sessions (UploadPackSession / ReceivePackSession) "
+         "repeat a sample with 1..k haves per round trip and small packfile limits; TLC (TraceSync.tla) judges the projected real before / "
+         "after states with ancestry computed by the specification.",
+         "the server is the harness's reference server built from pkg/api/utils (the production server lives in another repository)",
+         "TLA+ spec Sync.tla (TLC); TLC-enumerated scenarios replayed through the real CLI and client sessions; TLC trace validation (TraceSync.tla)",
+         "DESIGN.md 5/C09"),
+ "C08": ("negotiate", "model_checking",
+         "Negotiate.tla states the contract (RefuseOK, AcksOK, Closed, ParentFirst, NoExtra, tables exactly within depth, WorkOK with a "
+         "polynomial bound on object-store reads) and the design structured as the code (EnsureReachable, FindCommons on the shared "
+         "time-ordered frontier, EnqueueWants per want with a visited set and post-order emission); TLC checks DesignOK for every order of "
+         "the wants and enumerates all commit DAGs of <=3 commits (complete) and 4 commits (quick: head refs, <=2 wants; thorough: every "
+         "ref set, <=3 wants, plus a seeded quarter of the 5-commit universe) x clocks inconsistent with topology x want sets x have "
+         "batches incl. unknown hashes over several rounds x depth 0..3 x a missing table, plus ladders of 10..40 stacked merges; each is "
+         "run on the real ClosedSetsFinder over real commits and a real SQL ref store behind a counting object store (2.7M negotiations quick) "
+         "with acks, CommitsToSend order, TablesToSend and read counts judged; recorded random criss-cross histories are validated by TLC "
+         "(TraceNegotiate.tla).",
+         "a reachable want whose table is absent may be refused; table selection through acknowledged commons is not constrained from below; Poly(n) = 8n^2+64n reads",
+         "TLA+ spec Negotiate.tla (TLC); TLC-enumerated histories x wants x haves replayed into pkg/api/utils ClosedSetsFinder; TLC trace validation (TraceNegotiate.tla)",
+         "DESIGN.md 5/C08"),
 }
 
 NOT_YET = {
